@@ -593,6 +593,13 @@ func (device *Device) ConsumeMessageResponse(msg *MessageResponse) *Peer {
 
 	handshake.mutex.Lock()
 
+	// look again under the write lock: another worker may have consumed
+	// a duplicate of this response since the check above
+	if handshake.state != handshakeInitiationCreated {
+		handshake.mutex.Unlock()
+		return nil
+	}
+
 	handshake.hash = hash
 	handshake.chainKey = chainKey
 	handshake.remoteIndex = msg.Sender
